@@ -204,6 +204,27 @@ Theorem C19_fisher_n_draws : forall (F : OF) (m : nat) (p : nat -> F) (G : nat -
   = cmul F (of_nat F n) (fisher_core F m p G a b).
 Proof. exact fisher_n_draws. Qed.
 Print Assumptions C19_fisher_n_draws.
+(* Fisher information of the WHOLE experiment: independent schedules with different distributions, outcome counts, gradients and
+   shot numbers.  The covariance of the total score is  sum_j n_j F_j  (what N * calc_fisher_matrix_total(weights n_j / N) is,
+   C19_cr_weights_total_information) *)
+Theorem C19_fisher_info_additive : forall (F : OF) (a b : nat) (ssG : list (sched F * @mat F)),
+  Forall (sched_ok F a b) ssG ->
+  expectL F (map fst ssG) (fun obs => cmul F (score_total F ssG a obs) (score_total F ssG b obs)) = fisher_info F ssG a b.
+Proof. exact fisher_info_additive. Qed.
+Print Assumptions C19_fisher_info_additive.
+(* non-vacuity: a 2-outcome schedule (2 shots) and a 3-outcome schedule (1 shot), one parameter; both sides are 2*4 + 1*6 = 14 *)
+Definition fi_ex : list (sched Qc_OF * @mat Qc_OF) :=
+  [ ((2%nat, (fun _ => Q2Qc (1 # 2)%Q) : @vec Qc_OF, 2%nat), (fun x _ => match x with O => 1%Qc | _ => (- (1))%Qc end) : @mat Qc_OF);
+    ((3%nat, (fun _ => Q2Qc (1 # 3)%Q) : @vec Qc_OF, 1%nat), (fun x _ => match x with O => 1%Qc | 1%nat => 0%Qc | _ => (- (1))%Qc end) : @mat Qc_OF) ].
+Example C19_fisher_info_example_hypotheses : Forall (sched_ok Qc_OF 0 0) fi_ex.
+Proof. constructor; [|constructor; [|constructor]].
+  - split; [apply Qc_is_canon; vm_compute; reflexivity|]. split; [lia|]. split; [intros x _ H; discriminate H|].
+    split; apply Qc_is_canon; vm_compute; reflexivity.
+  - split; [apply Qc_is_canon; vm_compute; reflexivity|]. split; [lia|]. split; [intros x _ H; discriminate H|].
+    split; apply Qc_is_canon; vm_compute; reflexivity. Qed.
+Example C19_fisher_info_example_value : fisher_info Qc_OF fi_ex 0 0 = Q2Qc (14 # 1)%Q /\
+  expectL Qc_OF (map fst fi_ex) (fun obs => cmul Qc_OF (score_total Qc_OF fi_ex 0 obs) (score_total Qc_OF fi_ex 0 obs)) = Q2Qc (14 # 1)%Q.
+Proof. split; apply Qc_is_canon; vm_compute; reflexivity. Qed.
 (* matrix_util.calc_fisher_matrix on valid input returns that matrix *)
 Theorem C19_mu_fisher_ok : forall (F : OF) eps m (p : nat -> F) (G : @mat F),
   validate F eps true (map p (seq 0 m)) = MOk tt -> kleb F eps (c0 F) = false ->
